@@ -111,6 +111,24 @@ def run_case(spec, ctx):
         sol = sols[s][1]
         if sol is not None and (sol.x is not None or not np.isnan(sol.objval)):
             detail.append({'what': 'failed solve returns numbers', 'solver': s})
+    # display / log settings must not change what is returned
+    if opt and (src['spec'].get('spell', 0) % 25 == 0):
+        s0 = sorted(opt)[src['spec'].get('spell', 0) % len(opt)]
+        try:
+            from rsome import lp as _lp
+            import warnings as _w
+            with _w.catch_warnings():
+                _w.simplefilter('ignore')
+                sol2 = (_lp.def_sol(f, display=True, log=True) if s0 == 'def' else
+                        C.solver(s0).solve(f, display=True, log=True))
+            ctx.count('display_log_variants')
+            if sol2.x is None or abs(sol2.objval - opt[s0].objval) > 1e-9 * (1 + abs(opt[s0].objval)):
+                detail.append({'what': 'display/log settings change the result', 'solver': s0,
+                               'quiet': float(opt[s0].objval),
+                               'verbose': None if sol2.x is None else float(sol2.objval)})
+        except Exception as e:
+            detail.append({'what': 'display/log settings make the interface raise', 'solver': s0,
+                           'error': '%s: %s' % (type(e).__name__, str(e)[:80])})
     agree = None
     if outcome == 'optimal':
         vals = {s: float(sol.objval) for s, sol in opt.items()}
